@@ -1847,6 +1847,20 @@ class Interp:
             return self.call(self.getattr(v, '__len__', node), [], {}, node)
         raise PyRaise('TypeError', f'len() of {self.sort_name(v)}', node)
 
+    def bi_map(self, args, kwargs, node):
+        """map over concrete-length iterables (evaluated eagerly: the interpreted code only consumes the result)"""
+        f, its = args[0], [self.iterate(a, node) for a in args[1:]]
+        return [self.call(f, list(xs), {}, node) for xs in zip(*its)]
+
+    def bi_filter(self, args, kwargs, node):
+        f, items = args[0], self.iterate(args[1], node)
+        out = []
+        for x in items:
+            v = x if f is None else self.call(f, [x], {}, node)
+            if self.truth(v, node):
+                out.append(x)
+        return out
+
     def bi_reversed(self, args, kwargs, node):
         return list(reversed(self.iterate(args[0], node)))
 
@@ -1946,7 +1960,7 @@ class Interp:
 
 _CALLABLES = (FuncVal, BoundMethod, ContractMethod, ClassVal)
 BUILTIN_EXC = set(EXC_PARENTS) | {'BaseException'}
-INTERP_BUILTINS = {'isinstance', 'len', 'reversed', 'zip', 'enumerate', 'range', 'all', 'any', 'max', 'min', 'sorted', 'repr', 'print', 'id', 'hash'}
+INTERP_BUILTINS = {'isinstance', 'len', 'reversed', 'zip', 'enumerate', 'range', 'all', 'any', 'max', 'min', 'sorted', 'repr', 'print', 'id', 'hash', 'map', 'filter'}
 
 
 class InterpBuiltin:
